@@ -723,3 +723,7 @@ mod tests {
         handle.abort();
     }
 }
+
+#[cfg(all(test, pendulum_project_ntpd_rs_verif))]
+#[path = "/verif/harness/ntpd/probe_ntp_source.rs"]
+pub(crate) mod verif_probe;
